@@ -57,8 +57,8 @@ def confirm(name, patch, demo):
 
 RELATED = {
     "C01": "C01,C02,C03,C08,C19", "C02": "C02,C01,C03,C08,C16", "C03": "C03,C02,C01,C08", "C04": "C04,C20,C12,C05",
-    "C05": "C05,C13,C12,C11,C08", "C06": "C06,C05,C07,C11", "C07": "C07,C06,C11", "C08": "C08,C09,C10,C05,C01",
-    "C09": "C09,C08,C10", "C10": "C10,C08,C20,C01", "C11": "C11,C06,C07,C05", "C12": "C12,C04,C05", "C13": "C13,C05",
+    "C05": "C05,C13,C12,C11,C08", "C06": "C06,C05,C07,C11,C13", "C07": "C07,C06,C11", "C08": "C08,C09,C10,C05,C01",
+    "C09": "C09,C08,C10", "C10": "C10,C08,C20,C01,C09", "C11": "C11,C06,C07,C05", "C12": "C12,C04,C05", "C13": "C13,C05",
     "C14": "C14", "C15": "C15", "C16": "C16,C02", "C17": "C17,C08", "C18": "C18,C04", "C19": "C19,C02,C01", "C20": "C20,C04,C05,C10",
 }
 
